@@ -424,7 +424,13 @@ def run(prog: Program, L: Ledger) -> None:
     deltas = [1, -1] if L.tier == "quick" else [1, -1, 2, -2, 3, -3]
     for ci in crits:
         # public / static helpers of the criteria classes (an `acceptance_probability(x)`, a `potential_energy_difference(ctx)`) are seen through
-        f = flat(prog, prog.lookup_method(ci, "evaluate"), ci, keep=("evaluate", "to_dict", "from_dict"), public_methods=True)
+        # — but not helpers that keep state on the criterion (a cache written to `self.…`): those stay calls, and rule P
+        # reports what the formula reads through them
+        stateful = tuple(m.name for c_ in prog.mro_classes(ci) for m in c_.methods.values()
+                         if any(isinstance(t_, ast.Attribute) and isinstance(t_.value, ast.Name) and t_.value.id == "self"
+                                for n_ in walk_no_nested(m.node) if isinstance(n_, (ast.Assign, ast.AugAssign, ast.AnnAssign))
+                                for t_ in (n_.targets if isinstance(n_, ast.Assign) else [n_.target])))
+        f = flat(prog, prog.lookup_method(ci, "evaluate"), ci, keep=("evaluate", "to_dict", "from_dict", *stateful), public_methods=True)
         analyse(prog, L, ci, f, deltas)
     # default criteria used by drivers are covered
     check_properties(prog, L)
